@@ -39,6 +39,9 @@ DEPS = os.path.join(VERIF, ".deps")
 SCRATCH = os.environ.get("VERIF_SCRATCH", os.path.join(VERIF, ".scratch"))
 NCPU = min(16, os.cpu_count() or 4)
 KNOWN_FILE = os.path.join(VERIF, "known_findings.json")
+# runs against a scratch tree (mutant validation) must not overwrite the committed evidence / replay files
+EVIDENCE_DIR = os.environ.get("VERIF_EVIDENCE_DIR", os.path.join(VERIF, "evidence"))
+REPLAY_DIR = os.environ.get("VERIF_REPLAY_DIR", os.path.join(VERIF, "replay"))
 
 
 def child_env(extra=None):
@@ -345,11 +348,11 @@ class Ctx(object):
             "level": level, "coverage": cov, "assumptions": self.assumptions,
             "wall_s": round(wall, 2), "violations": len(new_keys),
         }
-        os.makedirs(os.path.join(VERIF, "evidence"), exist_ok=True)
-        tmpf = os.path.join(VERIF, "evidence", ".%s.json.tmp" % self.pid)
+        os.makedirs(EVIDENCE_DIR, exist_ok=True)
+        tmpf = os.path.join(EVIDENCE_DIR, ".%s.json.tmp" % self.pid)
         with open(tmpf, "w") as f:
             json.dump(ev, f, indent=1, sort_keys=True, default=repr)
-        os.replace(tmpf, os.path.join(VERIF, "evidence", "%s.json" % self.pid))
+        os.replace(tmpf, os.path.join(EVIDENCE_DIR, "%s.json" % self.pid))
 
         print("%s %s tier=%s seed=%d: cases=%d distinct=%d oracle_evals=%d events=%d wall=%.1fs" % (
             self.pid, verdict.upper(), self.tier, self.seed, self.evaluations,
@@ -357,7 +360,7 @@ class Ctx(object):
         if self.hits:
             print("  hits: " + ", ".join("%s=%d" % kv for kv in sorted(self.hits.items())))
         if verdict == "violated":
-            rdir = os.path.join(VERIF, "replay", self.pid)
+            rdir = os.path.join(REPLAY_DIR, self.pid)
             os.makedirs(rdir, exist_ok=True)
             for key in new_keys:
                 ws = [f for f in new if f["key"] == key]
